@@ -40,6 +40,7 @@ def setup(ctx):
     ctx.require("monitor", "l2_request_then_close_notify", 20)
     ctx.require("monitor", "l2_compared", 40)
     ctx.require("monitor", "l2_large_uploads", 30)
+    ctx.require("monitor", "l2_bad_record_runs", 60)
 
 
 REQS = [
@@ -408,8 +409,74 @@ def run_l2_large(ctx):
                     close_loop(loop)
 
 
+def run_l2_bad_record(ctx):
+    """After the record(s) that complete a request, the client side emits bytes that are not a valid TLS record of this
+    session (a record with a wrong MAC, an unknown record type, clear text): the TLS layer will tear the connection
+    down - but what the REQUEST does (handler entries, what an upload stores) is the same whether those bytes share a
+    read with the request or come in a read of their own.  (What still reaches the dying connection's client is not
+    compared.)"""
+    from nauyaca.server.protocol import GeminiServerProtocol
+
+    from vf import tlsbench
+
+    bads = {"wrong-mac": b"\x17\x03\x03\x00\x20" + bytes(range(32)), "unknown-type": b"\x63\x03\x03\x00\x02\x00\x00", "clear-text": b"gemini://localhost/again\r\n",
+            "oversize-length": b"\x17\x03\x03\xff\xff" + b"\x00" * 64, "wrong-mac-twice": (b"\x17\x03\x03\x00\x18" + bytes(range(24))) * 2}
+    reqs = [(b"gemini://h/a\r\n", "gemini"), (b"titan://h/f;size=4;mime=text/plain\r\nDATA", "titan-full"), (b"titan://h/f;size=0\r\n", "titan-delete"),
+            (b"titan://h/big;size=30000\r\n" + bytes(range(250)) * 120, "titan-30000")]
+    for data, label in reqs:
+        # (only nauyaca's own pump: behind the standard library's TLS layer CPython decrypts a whole read before it hands
+        # anything on, and drops what it has decrypted when a later record of the same read is bad - that is CPython's
+        # sslproto, not code of this repository, and the property names the PyOpenSSL pump)
+        for backend in ("pyopenssl",):
+            for bname, bad in bads.items():
+                base = None
+                for delivery in ("own-read", "same-read", "same-read-two-records"):
+                    log = []
+                    loop = new_loop()
+                    try:
+                        h = SpyHandler({"mode": "sync", "outcome": "value", "status": 20, "meta": "text/gemini", "body": "ok\n"}, log, loop)
+                        up = SpyUpload({"delay": 0, "outcome": "value", "status": 20, "meta": "text/gemini", "body": "stored\n"}, log, loop)
+                        bench = tlsbench.Sandwich(loop, lambda: GeminiServerProtocol(h, None, up), backend=backend, log=log)
+                        if not bench.handshake():
+                            ctx.inconclusive_because(f"L2 handshake failed: {bench.error}")
+                            continue
+                        if delivery == "same-read-two-records":
+                            cut = data.index(b"\r\n") + 1
+                            bench.client.write(data[:cut])
+                            bench.client.write(data[cut:])
+                        else:
+                            bench.client.write(data)
+                        cipher = bench.cout.read()
+                        if delivery == "own-read":
+                            loop.do(bench.tcp.feed, cipher)
+                            loop.advance(0.5)
+                            loop.do(bench.tcp.feed, bad)
+                        else:
+                            loop.do(bench.tcp.feed, cipher + bad)
+                        bench.finish()
+                        obs = {"handler_calls": len(h.calls), "n_upload": len(up.calls), "upload_calls": [{kk: c[kk] for kk in ("raw_url", "size", "mime", "token", "content", "path")} for c in up.calls]}
+                        ctx.count("monitor", "l2_bad_record_runs")
+                        wit = {"level": "L2", "backend": backend, "request": data[:60], "then": f"{bname} ({len(bad)} bytes that are no valid record of the session)", "delivery": delivery,
+                               "observed": {k: obs[k] for k in ("handler_calls", "n_upload")}, "baseline_own_read": {k: base[k] for k in ("handler_calls", "n_upload")} if base else None}
+                        if base is None:
+                            base = obs
+                        else:
+                            if obs["handler_calls"] > 1 or obs["n_upload"] > 1:
+                                ctx.violation(f"handler-ran-twice:proto={label}:backend={backend}:after=bad-record", "more than one handler entry on one connection", wit)
+                            elif (obs["handler_calls"], obs["n_upload"]) != (base["handler_calls"], base["n_upload"]):
+                                ctx.violation(f"segmentation-dependent-effect:handler-invocations:proto={label.split('-')[0]}:backend={backend}:where=bad-record-in-the-same-read",
+                                              f"handler entries {obs['handler_calls']}/{obs['n_upload']} when the invalid bytes share the request's read, {base['handler_calls']}/{base['n_upload']} when they come in their own read", wit)
+                            elif obs["upload_calls"] != base["upload_calls"]:
+                                ctx.violation(f"segmentation-dependent-effect:proto={label.split('-')[0]}:backend={backend}:where=bad-record-in-the-same-read", "the upload handed to the handler differs", wit)
+                        ctx.case(("L2-bad-record", backend, label, bname, delivery, obs["handler_calls"], obs["n_upload"]), True, sample=wit)
+                    finally:
+                        close_loop(loop)
+
+
 def run(ctx):
     run_l1(ctx)
+    if ctx.mine(4) or ctx.nshards == 1:
+        run_l2_bad_record(ctx)
     run_l2_large(ctx)
     run_real_upload(ctx)
     run_l2(ctx)
